@@ -31,7 +31,7 @@ PROPS = {
         "level_note": "Trusted: Lean kernel; the Handle model is validated against the code on generated sequences only; the hidden stack is observed "
                       "through depth+2 trailing pops. One genuine defect was repaired (fix: 6264abc).",
         "correspondence": "Spec.Handle model vs LoggerHandle::{set_new_spec,parse_new_spec,push_temp_spec,parse_and_push_temp_spec,pop_temp_spec}",
-        "rule": "additional writers with ceilings 0..5 in a third of the cases (the gate is the maximum over the active specification and them); seeded op sequences of the five reconfiguration methods with well-formed and malformed strings, nested pushes, "
+        "rule": "40 (thorough: 340 per seed) of C12's schedules (parked calls, push/pop on clones, free-running races) run under C05 as well: the methods take effect as a whole also when two clones call them at the same time; additional writers with ceilings 0..5 in a third of the cases (the gate is the maximum over the active specification and them); seeded op sequences of the five reconfiguration methods with well-formed and malformed strings, nested pushes, "
                 "pops beyond the stack; after every op the enabled grid and log::max_level() are compared; each sequence ends "
                 "with depth+2 pops; non-trivial = contains a rejected string or a pop",
         "trusted": SPEC_TRUST,
@@ -54,7 +54,7 @@ PROPS = {
                       "with the pool invariant 'pooled buffers are empty' (and a witness that dropping the clear breaks it); shutdown drains the channel. "
                       "Validation: real threads (2..8) log through the real FileLogWriter under seeded scheduling noise at hook points; the observed global "
                       "order must be accepted by the Conc model AND, replayed as a sequential history, reproduce the real directory in the Flw model (linearizability).",
-        "level_note": "PARTIAL: a theorem cannot exhibit real preemption inside a critical section or OS tearing of a write(2); those are sampled by the "
+        "level_note": "Records whose whole text is one letter (among them `F` and `S`, the in-band control messages of the asynchronous writers: only the line ending tells such a record from them) are part of the thread programs. PARTIAL: a theorem cannot exhibit real preemption inside a critical section or OS tearing of a write(2); those are sampled by the "
                       "real-thread runs, not proved. Assumes mutex critical section = atomic step, crossbeam channel FIFO per producer, one write_all per line.",
         "correspondence": "observed order of real concurrent runs vs Conc.ObsOk, and vs the sequential Flw model (directory snapshot)",
         "rule": "seeded programs (2..8 threads x 3..25 lines of sizes 8..130, now and then 9-40 kB; nested logging from a Display argument in a third of the threads) x modes sync direct/buffered/async(pool,msg) x all namings x size limits; "
@@ -117,7 +117,7 @@ PROPS = {
                       "order of names (rendering order-preserving for 4-digit years, index < 100000, suffix sorting before 'restart'). No cleanup (as the property says).",
         "correspondence": "Flw model (step/readAll/parts/render) vs real FileLogWriter on real files with the virtual clock",
         "rule": "seeded histories: record lengths {1,2,N-1,N,N+1,3N+7,cap+1,random} x N in {0,1,5,16,40,64} x namings x Size/Age/AgeOrSize x cap {none,1,4,8,N,8192} x "
-                "name-part combinations x custom formats; clock mostly frozen/+1s with minute/hour/day/month jumps; plus 40 (thorough: 600 per seed) histories of appending runs across a month end with every timestamp format incl. the day-first one; non-trivial = at least one rotation happened",
+                "name-part combinations x custom formats; clock mostly frozen/+1s with minute/hour/day/month jumps; plus 40 (thorough: 600 per seed) histories of appending runs across a month end with every timestamp format incl. the day-first one; plus 9 runs with records logged from within Display (nesting depth 1..3, direct/buffered/async file output, CRLF); non-trivial = at least one rotation happened",
         "trusted": ["OS file system semantics (rename, append, truncate)", "std::io::BufWriter", "chrono formatting of the infix"],
         "assumptions": ["monotone clock", "4-digit years, rotation index < 100000, < 10000 restarts per second, suffix sorts before 'restart'"],
     },
@@ -129,7 +129,7 @@ PROPS = {
                       "independent greedy oracle on the real files.",
         "level_note": "Single runs: the partition theorems above. Across restarts (Props/C08Restart, all four namings, append on/off per run, no cleanup): in every reachable state the counter equals the length of the file the writer writes to, buffer included (size_is_file_length); a run that appends starts its counter at the size of the file it finds, a run that does not append at 0 (restart_counter); at every write the writer rotates first iff that file already holds more than N bytes, whichever run wrote them (size_rule_multi_run; size_rule_files in the reader's view for the rCURRENT namings). For the non-rotating writer the counter is not maintained (plain_counter_is_not_file_length) and never read.",
         "correspondence": "Flw model vs real FileLogWriter (PARTS = sizes in reading order)",
-        "rule": "size-only criteria, N from 0, boundary lengths, LF records, all namings, modes direct/buffered/bufflush/async, append restarts; plus 150 (thorough: 2000 per seed) histories with a cleanup strategy in the rotating thread whose steps fail (injected remove/compress faults); non-trivial = rotation or restart happened",
+        "rule": "size-only criteria, N from 0, boundary lengths, LF records, all namings, modes direct/buffered/bufflush/async, append restarts; plus 150 (thorough: 2000 per seed) histories with a cleanup strategy in the rotating thread whose steps fail (injected remove/compress faults); plus 150 (thorough: 2000 per seed) histories with reopen_outputfile() between the records (file in place, renamed or removed); non-trivial = rotation or restart happened",
         "trusted": ["OS file system semantics", "std::io::BufWriter"],
     },
     "C09": {
@@ -142,7 +142,7 @@ PROPS = {
                       "nothing is virtual, the executor sleeps into the intended seconds, the file system supplies birth and modification times, the names are compared as second offsets (STAMPS), "
                       "and an oracle independent of the model demands that a current file rotated out at start carries the second of its birth (stat), not of its last write.",
         "correspondence": "Flw model vs real FileLogWriter under the virtual clock hook; 8 (thorough: 16 per seed) cases under the real clock with the real file-system times",
-        "rule": "age-only and age-or-size(inactive) criteria x 4 ages x namings x caps, append restarts in the same/a later period; real-clock shapes: restart rotates out a file written over two seconds, buffered append restart in the second of the last flush, size rotation after an append restart, age rotation under every naming; non-trivial = rotation or restart happened",
+        "rule": "age-only and age-or-size(inactive) criteria x 4 ages x namings x caps, append restarts in the same/a later period; plus 200 (thorough: 3000 per seed) histories with age-or-size and BOTH parts active; real-clock shapes: restart rotates out a file written over two seconds, buffered append restart in the second of the last flush, size rotation after an append restart, age rotation under every naming; non-trivial = rotation or restart happened",
         "trusted": ["chrono civil time", "virtual clock + creation-time table hooks (add-only, cfg-guarded)"],
         "assumptions": ["monotone local clock"],
     },
@@ -166,7 +166,7 @@ PROPS = {
         "level_note": "PARTIAL for timing: the real flusher and writer threads are represented only at the granularity of the protocol steps; the delivery guarantee of "
                       "flush() is claimed for the synchronous modes only (as the property says). Known finding C04-async-clone-drop (not repaired, see known_findings.json).",
         "correspondence": "Flw model vs Logger::build() + LoggerHandle::{flush,shutdown,clone,drop}; child process stdout/stderr vs the lines logged",
-        "rule": "the file writer as primary output or (1/4) as an additional writer `{flw}` of a logger without primary output x modes direct/buf/bufflush/async x with/without rotation x record volumes above and below the buffer x clone/drop/flush at seeded positions, ending by shutdown(), "
+        "rule": "the file writer as primary output or (1/4) as an additional writer `{flw}` of a logger without primary output x modes direct/buf/bufflush/async x with/without rotation x record volumes above and below the buffer x clone/drop/flush at seeded positions, ending by shutdown(), by drop of the last handle, or (sync modes, 1/4) by shutdown() + more records + drop of the last handle, "
                 "two overlapping shutdown() calls with a slowed writer thread, or drop of the last handle; 40 child-process runs to stdout/stderr; non-trivial = more than one record reached the observation point",
         "trusted": ["std::io::BufWriter", "crossbeam channel FIFO", "process exit does not lose data already handed to write(2)"],
         "shards": 8,
@@ -195,12 +195,12 @@ PROPS = {
                       "file-name part combinations (empty basename, no suffix, multi-byte, dots), all namings, 3 custom formats with append on/off and restarts, "
                       "directories pre-populated with arbitrary near-miss names — every call under catch_unwind, a later record must still be accepted; recursive logging "
                       "from Display in a child process under a watchdog.",
-        "level_note": "PARTIAL: a theorem cannot show the absence of panics in unmodelled code (std, chrono, regex, OS); that part is exploration. Five panics found and "
+        "level_note": "The in-memory log target has its own small model (Model/Buf) and theorems (Props/C10Buf): the eviction loop of BufferWriter::write has no exit of its own when the queue is empty; it ends because the counter equals the sum of the queued lengths (evict_terminates, write_returns, log_to_buffer_never_hangs for every sequence of record lengths; stale_counter_hangs is the witness that the invariant is needed). PARTIAL: a theorem cannot show the absence of panics in unmodelled code (std, chrono, regex, OS); that part is exploration. Five panics found and "
                       "repaired (fix commits 9620a31, 0f937be, 9c1a91c, 6ba14c4, index overflow); one hang repaired, too (fix 54ef5cd: recursion + buffered stdout); a sixth panic found in the fourth seeded round and repaired (fix 6e6ba35: the log directory vanishes while the logger runs). "
                       "Out of the random domain (documented): suffix 'gz', exhausted index space (>= 2^32-1).",
         "correspondence": "Spec.route/enabledQuery/parse vs the real logger on nasty inputs; robustness histories: only 'the call returns' is predicted",
         "rule": "half records/spec strings (22 nasty targets incl. 5000-char and 100 KB messages, arbitrary Unicode spec strings), half file-name configurations x "
-                "directory contents (24 nasty name fragments) x histories with rotations and restarts, in a quarter of which the log directory itself vanishes for a while (RMDIR … MKDIR); 32 recursion runs (nesting depth 1, 2, 3, 5; file, stdout and stderr, direct, buffered and async); non-trivial = all executed cases",
+                "directory contents (24 nasty name fragments) x histories with rotations and restarts, in a quarter of which the log directory itself vanishes for a while (RMDIR … MKDIR); 40 (thorough: 400 per seed) runs of the in-memory log target (log_to_buffer) with record lengths around and above its budget, in a child under a watchdog, compared with Model/Buf; 32 recursion runs (nesting depth 1, 2, 3, 5; file, stdout and stderr, direct, buffered and async); non-trivial = all executed cases",
         "trusted": ["catch_unwind observes every panic of the calling thread", "watchdog 4 s + 8 s re-run for hang detection"],
         "shards": 8,
     },
@@ -276,7 +276,7 @@ PROPS = {
                       "at that point. Kills at ARBITRARY instants are exercised as well (family k: the child announces a burst of 20..120 writes, the parent sends SIGKILL a random number of microseconds later): "
                       "the directory found afterwards must be EQUAL to one the model passes through during the write in flight - before it, at one of its recorded points, or after it (driver op KOBS over "
                       "FlwTrace.stepT); the model continues from the matching directory, a new logger is started and compared as usual; creation times travel by inode, a file that the dead process had not yet "
-                      "registered was created by the operation in flight. That every real kill state is a modelled crash state is an observation (60 kills per quick run), not a theorem.",
+                      "registered was created by the operation in flight. That every real kill state is a modelled crash state is an observation (60 kills per quick run); what IS a theorem (Props/C11Gap, points_leave_no_gap): in direct mode the recorded states of a write or forced rotation - the state before, every point, the state after - form a chain in which consecutive states differ by at most ONE atomic file-system effect (nothing, create empty, truncate, re-create an existing .gz, one append, rename, unlink, a .gz becoming readable, symlink removed, symlink created), for EVERY state; so the model has no gap between its points, and with buffering it has one (a flush and a write between write.before and write.after), which is why the claim is for direct mode.",
         "correspondence": "FlwTrace.crashDir/stepT vs child processes killed at hook points and by SIGKILL at arbitrary instants, then restart on the same directory",
         "rule": "6 histories (quick) x {victim write, forced rotation} x 17 points x occurrences 0..2 (cleanup/compress points) x restart append on/off; direct mode, all namings, "
                 "cleanup never/(1,1)/random; plus 60 (thorough: 1500 per seed) SIGKILLs at arbitrary instants during bursts of same-second writes; non-trivial = all (each case kills or proves the point unreachable)",
